@@ -89,6 +89,7 @@ pub struct Recorder<'a> {
     pub mirror_next: bool,
     pub progress: Option<std::path::PathBuf>,
     pub last_id: Option<usize>,
+    pub observe_every: usize,
 }
 
 impl<'a> Recorder<'a> {
@@ -159,6 +160,13 @@ impl<'a> Recorder<'a> {
             let _ = self.out.flush();
         }
         self.events += 1;
+        if self.observe_every > 0 && self.events % self.observe_every == 0 && !ret.is_panic() {
+            for h in 0..w.gs.len() {
+                if w.gs[h].is_some() {
+                    self.events += crate::observers::observe_all(w, h, self.tid, &[], self.out);
+                }
+            }
+        }
         !ret.is_panic()
     }
 }
@@ -176,7 +184,7 @@ pub fn run(o: &DriveOpts, out: &mut dyn Write, tid: usize) -> Value {
     }
     w.labels = labels.clone();
     let datas = data_pool();
-    let mut rec = Recorder { out, tid, events: 0, mirror_next: false, progress: o.progress.clone(), last_id: None };
+    let mut rec = Recorder { out, tid, events: 0, mirror_next: false, progress: o.progress.clone(), last_id: None, observe_every: if o.profile == "observe" { 25 } else { 0 } };
     rec.reset(&w);
     let win = o.window.min(o.cap);
     let mut ok = true;
